@@ -55,7 +55,8 @@ func stateOps(root []*ssa.Function, a *svcAnchors) (ops []stateOp, nonAtomic []c
 			}
 			continue
 		}
-		ops = append(ops, op)
+		// an operation with constants of its own in a wrapper that does nothing else (tryStart())
+		ops = append(ops, liftThroughWrappers(root, op, 0)...)
 	}
 	return
 }
